@@ -153,6 +153,110 @@ var verifC20Known = map[string]map[string]bool{
 
 func verifC20Uncovered(ws WriteScheduler) string {
 	var out []string
+	// pass 1: a canonical name (its first path through known fields) for every object reachable through known fields
+	names := map[uintptr]string{}
+	var index func(v reflect.Value, path string, depth int)
+	index = func(v reflect.Value, path string, depth int) {
+		if depth > 64 {
+			return
+		}
+		switch v.Kind() {
+		case reflect.Ptr, reflect.Interface:
+			if v.IsNil() {
+				return
+			}
+			if v.Kind() == reflect.Ptr {
+				if first, ok := names[v.Pointer()]; ok {
+					// one object reachable through two places of the structure: tree links (parent / kids / prev /
+					// next, the node map, the closed and idle lists) do that by design; a write queue in two places
+					// (two streams, or a stream and the pool) is sharing the dump of contents alone would not show
+					if v.Elem().Kind() == reflect.Struct && v.Elem().Type().Name() == "writeQueue" && first != path {
+						out = append(out, "alias:"+path+"=="+first)
+					}
+					return
+				}
+				names[v.Pointer()] = path
+			}
+			index(v.Elem(), path, depth+1)
+		case reflect.Struct:
+			known := verifC20Known[v.Type().Name()]
+			if known == nil {
+				return
+			}
+			for i := 0; i < v.NumField(); i++ {
+				f := v.Type().Field(i)
+				if known[f.Name] && f.Name != "s" && f.Name != "tmp" {
+					index(v.Field(i), path+"."+f.Name, depth+1)
+				}
+			}
+		case reflect.Map:
+			keys := v.MapKeys()
+			sort.Slice(keys, func(i, j int) bool { return keys[i].Uint() < keys[j].Uint() })
+			for _, k := range keys {
+				index(v.MapIndex(k), fmt.Sprintf("%s[%d]", path, k.Uint()), depth+1)
+			}
+		case reflect.Slice, reflect.Array:
+			for i := 0; i < v.Len(); i++ {
+				index(v.Index(i), fmt.Sprintf("%s[%d]", path, i), depth+1)
+			}
+		}
+	}
+	index(reflect.ValueOf(ws), "ws", 0)
+	// value of a field the dump does not know, canonically: scalars by value, pointers by the name of what they point at
+	// (or, for an object not reachable through known fields, by its contents), slices / arrays / maps / structs by parts
+	var value func(v reflect.Value, depth int) string
+	value = func(v reflect.Value, depth int) string {
+		if depth > 16 {
+			return "<unsupported>"
+		}
+		switch v.Kind() {
+		case reflect.Bool:
+			return fmt.Sprint(v.Bool())
+		case reflect.Int, reflect.Int8, reflect.Int16, reflect.Int32, reflect.Int64:
+			return fmt.Sprint(v.Int())
+		case reflect.Uint, reflect.Uint8, reflect.Uint16, reflect.Uint32, reflect.Uint64, reflect.Uintptr:
+			return fmt.Sprint(v.Uint())
+		case reflect.String:
+			return fmt.Sprintf("%q", v.String())
+		case reflect.Ptr:
+			if v.IsNil() {
+				return "nil"
+			}
+			if n, ok := names[v.Pointer()]; ok {
+				return "->" + n
+			}
+			return "->new{" + value(v.Elem(), depth+1) + "}"
+		case reflect.Slice, reflect.Array:
+			if v.Kind() == reflect.Slice && v.IsNil() {
+				return "nil"
+			}
+			var parts []string
+			for i := 0; i < v.Len(); i++ {
+				parts = append(parts, value(v.Index(i), depth+1))
+			}
+			return "[" + strings.Join(parts, ",") + "]"
+		case reflect.Map:
+			if v.IsNil() {
+				return "nil"
+			}
+			var parts []string
+			for _, k := range v.MapKeys() {
+				parts = append(parts, value(k, depth+1)+":"+value(v.MapIndex(k), depth+1))
+			}
+			sort.Strings(parts)
+			return "{" + strings.Join(parts, ",") + "}"
+		case reflect.Struct:
+			if v.Type().Name() == "FrameWriteRequest" {
+				return "<unsupported>" // frames are identified by the harness, not by their fields
+			}
+			var parts []string
+			for i := 0; i < v.NumField(); i++ {
+				parts = append(parts, v.Type().Field(i).Name+"="+value(v.Field(i), depth+1))
+			}
+			return "{" + strings.Join(parts, ",") + "}"
+		}
+		return "<unsupported>"
+	}
 	seen := map[uintptr]bool{}
 	var walk func(v reflect.Value, path string, depth int)
 	walk = func(v reflect.Value, path string, depth int) {
@@ -186,18 +290,7 @@ func verifC20Uncovered(ws WriteScheduler) string {
 					walk(fv, path+"."+f.Name, depth+1)
 					continue
 				}
-				switch fv.Kind() {
-				case reflect.Bool:
-					out = append(out, fmt.Sprintf("%s.%s=%v", path, f.Name, fv.Bool()))
-				case reflect.Int, reflect.Int8, reflect.Int16, reflect.Int32, reflect.Int64:
-					out = append(out, fmt.Sprintf("%s.%s=%d", path, f.Name, fv.Int()))
-				case reflect.Uint, reflect.Uint8, reflect.Uint16, reflect.Uint32, reflect.Uint64, reflect.Uintptr:
-					out = append(out, fmt.Sprintf("%s.%s=%d", path, f.Name, fv.Uint()))
-				case reflect.String:
-					out = append(out, fmt.Sprintf("%s.%s=%q", path, f.Name, fv.String()))
-				default:
-					out = append(out, fmt.Sprintf("%s.%s=<unsupported>", path, f.Name))
-				}
+				out = append(out, fmt.Sprintf("%s.%s=%s", path, f.Name, value(fv, 0)))
 			}
 		case reflect.Map:
 			keys := v.MapKeys()
